@@ -247,7 +247,7 @@ func checkC07(c *km.Ctx) {
 		// the requested user: GetSigned's parameter, or a helper's parameter GetSigned binds to it
 		isUser := func(v ssa.Value) bool {
 			v = km.Unwrap(v)
-			if v == ssa.Value(gs.Params[1]) {
+			if v == ssa.Value(km.ParamAt(gs, 1)) {
 				return true
 			}
 			p, ok := v.(*ssa.Parameter)
@@ -268,7 +268,7 @@ func checkC07(c *km.Ctx) {
 					return false
 				}
 				a := km.CallArgs(ci.Common())
-				if idx < 0 || idx >= len(a) || km.Unwrap(a[idx]) != ssa.Value(gs.Params[1]) {
+				if idx < 0 || idx >= len(a) || km.Unwrap(a[idx]) != ssa.Value(km.ParamAt(gs, 1)) {
 					return false
 				}
 				n++
@@ -440,7 +440,7 @@ func checkPasswordDispatch(c *km.Ctx, s *km.Sem) {
 	if bcall == nil {
 		r.AnchorLost("R-C07-4", "PasswordAuthenticate call in checkUserPassword")
 	} else {
-		argsOK := km.Unwrap(km.CallArgs(bcall.Common())[1]) == ssa.Value(cup.Params[0])
+		argsOK := km.Unwrap(km.CallArgs(bcall.Common())[1]) == ssa.Value(km.ParamAt(cup, 0))
 		r.Add("R-C07-4", km.FuncName(cup), "backend asked about the given user", posOf(c, bcall), "PasswordAuthenticate(username param, password)", km.ValStr(km.CallArgs(bcall.Common())[1]), argsOK)
 		for _, rc := range s.RetCases(cup) {
 			v := km.Unwrap(rc.Results[0])
@@ -509,7 +509,7 @@ func checkPasswordDispatch(c *km.Ctx, s *km.Sem) {
 				continue
 			}
 			cl, idx := callRes(v)
-			ok := cl != nil && idx == 0 && km.CalleeFull(cl.Common()) == authutilPkg+".CheckHtpasswdUserPassword" && km.Unwrap(cl.Common().Args[0]) == ssa.Value(fn.Params[1])
+			ok := cl != nil && idx == 0 && km.CalleeFull(cl.Common()) == authutilPkg+".CheckHtpasswdUserPassword" && km.Unwrap(cl.Common().Args[0]) == ssa.Value(km.ParamAt(fn, 1))
 			r.Add("R-C07-4", km.FuncName(fn), "verdict returned", posOf(c, rc.Ret), "CheckHtpasswdUserPassword(user param, …) result", km.ValStr(v), ok)
 		}
 	}
@@ -532,7 +532,7 @@ func checkLDAPVerdict(c *km.Ctx, s *km.Sem, pa, upd *ssa.Function) {
 		}
 	}
 	// which parameters carry the submitted user name / password
-	tags := map[*ssa.Parameter]string{pa.Params[1]: "user", pa.Params[2]: "password"}
+	tags := map[*ssa.Parameter]string{km.ParamAt(pa, 1): "user", km.ParamAt(pa, 2): "password"}
 	var tagOf func(v ssa.Value) string
 	tagOf = func(v ssa.Value) string {
 		v = km.Unwrap(v)
